@@ -184,6 +184,18 @@ func genHsPlan(t *rapid.T, lbl string) hsPlan {
 		for i := 0; i < n; i++ {
 			p.Piggy = append(p.Piggy, wsMessage{Binary: rapid.Bool().Draw(t, lbl+"pbin"), Payload: genPayload(t, 300, lbl+"piggy.")})
 		}
+		if rapid.IntRange(0, 2).Draw(t, lbl+"bulk") == 0 {
+			// more bytes behind the head than the client's frame buffer holds initially (4 KiB): they can only arrive in
+			// one read together with the end of the head when the head was large (the handshake buffer has grown, and
+			// stays grown for later handshakes on the same stream)
+			for i, nb := 0, rapid.IntRange(20, 45).Draw(t, lbl+"nbulk"); i < nb; i++ {
+				b := make([]byte, rapid.IntRange(100, 300).Draw(t, lbl+"bulklen"))
+				for j := range b {
+					b[j] = byte(i*17 + j*5 + 3)
+				}
+				p.Piggy = append(p.Piggy, wsMessage{Binary: true, Payload: b})
+			}
+		}
 		if rapid.IntRange(0, 2).Draw(t, lbl+"partial") == 0 {
 			p.PartialCut = rapid.IntRange(1, 6).Draw(t, lbl+"pcut")
 		}
